@@ -96,6 +96,12 @@ let rec handler r =
        | Ok i -> let i = int_of_z i in
            put_f (arithmetic_mean fops g); put_f (median fops g); put_i i; put_f (List.nth g k); put_f (List.nth g i)
        | Exit -> put_w "EXIT" | OOB -> put_w "OOB" | Fuel -> put_w "FUEL")
+  | "dpcmp" -> let mode = integer r in
+      let v1 = num r in let w1 = num r in let v2 = num r in let w2 = num r in
+      let a = if mode = 0 then datapoint v1 w1 else if mode = 1 then datapoint1 fops v1 else datapoint0 fops in
+      let b = if mode = 1 then datapoint1 fops v2 else datapoint v2 w2 in
+      put_f (fst a); put_f (snd a); put_f (fst b); put_f (snd b);
+      put_b (dp_lt fops a b); put_b (dp_gt fops a b); put_b (dp_eq fops a b)
   | o -> put_w ("MODELERR unknown_op_" ^ o)
 
 let () = run handler
